@@ -18,7 +18,7 @@ use chitchat::{
 use tokio::sync::watch;
 use tokio::time::Instant;
 
-use crate::util::{hex, zc_table};
+use crate::util::{hex, hexv, zc_table};
 
 #[derive(Clone, Debug)]
 pub enum Pred {
@@ -135,7 +135,7 @@ fn dump_copy(out: &mut String, id: &ChitchatId, ns: &NodeState, t0: Instant) {
             out,
             " {} {} {} {}",
             hex(k.as_bytes()),
-            hex(v.value.as_bytes()),
+            hexv(v.value.as_bytes()),
             v.version,
             status_tokens(&v.status, t0)
         );
@@ -238,7 +238,7 @@ impl Sim {
         let mut evs = self.nodes[n].events.lock().unwrap();
         let mut out = format!("ev {}", evs.len());
         for (id, k, v) in evs.iter() {
-            let _ = write!(out, " {} {} {}", id, hex(k.as_bytes()), hex(v.as_bytes()));
+            let _ = write!(out, " {} {} {}", id, hex(k.as_bytes()), hexv(v.as_bytes()));
         }
         evs.clear();
         out
